@@ -402,6 +402,11 @@ func (d *dec) experimenter(xid uint64, body []byte, bb int) *Node {
 				d.fail("len-mismatch", "bundle-add: %d bytes follow the %d-byte message, its padding alone is %d", len(rest), il, padded)
 			}
 			d.zero(rest[:padded], "bundle-add message pad")
+			if len(rest) == padded {
+				// the padding exists for the properties' alignment only: without a property the message ends with
+				// the embedded message (its length field says so to every receiver that checks it)
+				d.fail("len-mismatch", "bundle-add: %d padding bytes follow the %d-byte message but no property does", padded, il)
+			}
 			props := d.bundleProps(rest[padded:], pb+8+il+padded)
 			n.Add(props...)
 		}
